@@ -249,24 +249,32 @@ def sample(c, o):
     return {'input': c, 'impl': o}
 
 
-def shrink(c, o):
-    """A failing batch is reduced to the first single subset on which the implementation's answer differs from the rule."""
-    if c['k'] == 'allowed' and isinstance(o, dict) and 'r' in o and len(c['sets']) > 1:
-        edges, freq = tables()
-        spec = PySpec(edges, freq)
-        for s, r in zip(c['sets'], o['r']):
-            if spec.accept([tuple(e) for e in s]) != r:
-                return {'k': 'allowed', 'sets': [s]}
-    return c
+def shrink_candidates(c):
+    """Smaller cases (common.batch_shrink runs them and keeps the first that still fails spec_ok): a failing batch is split
+    into its single subsets, a single subset / gate set loses one gate at a time."""
+    if c['k'] == 'allowed':
+        if len(c['sets']) > 1:
+            for s in c['sets']:
+                yield {'k': 'allowed', 'sets': [s]}
+        elif c['sets'] and len(c['sets'][0]) > 1:
+            s = c['sets'][0]
+            for i in range(len(s)):
+                yield {'k': 'allowed', 'sets': [s[:i] + s[i + 1:]]}
+    elif c['k'] == 'park' and len(c['ops']) > 1:
+        for i in range(len(c['ops'])):
+            yield {'k': 'park', 'ops': c['ops'][:i] + c['ops'][i + 1:]}
+    elif c['k'] == 'gen' and len(c['edges']) > c['size'] > 0:
+        k = c['size']
+        for i in range(0, len(c['edges']), k):
+            yield dict(c, edges=c['edges'][:i] + c['edges'][i + k:])
 
 
-LEVEL_TEXT = ('Machine-checked theorems (Coq) over the device tables and the frequency ordering regenerated from the Python source on every run: '
-              'get_mutually_allowed is a conjunction of ordered pair checks for gate lists of any length; on all 48x48 oriented edge pairs the pair check '
-              'equals the frequency-collision rule (vm_compute), hence acceptance = rule for every duplicate-free list of device edges of any size; '
-              'get_requires_parking = rule for all 17 qubits and every accepted gate set; every sequence of the generator model is a permutation of the '
-              'requested gates split into accepted steps. The hand-written model is tied to the code by an exhaustive sweep over all edge subsets of size <= 3 '
-              '(thorough: <= 4), every qubit for the parking question, and generator runs.')
-LEVEL_NOTE = ('Trusted: Coq kernel, the ast translator (tables/ordering compared with the runtime objects), the hand model of the acceptance logic (exhaustive small-subset '
-              'correspondence). The generator clause is proved for the model of construct_allowed_gate_sequences (partitions + filter); tqdm/itertools themselves are not modelled. '
-              'No axioms (Print Assumptions: closed).')
-TECHNIQUE = 'Coq proof (pairwise reduction + finite table by vm_compute) over translator-generated tables + exhaustive correspondence evaluated by vm_compute'
+LEVEL_TEXT = ('Coq theorems over the Surface-17 tables and the frequency ordering regenerated from the Python source on every run: get_mutually_allowed is a conjunction of '
+              'ordered pair checks for gate lists of any length, and on all 48 x 48 oriented edge pairs the pair check equals the frequency-collision rule (vm_compute), hence '
+              'acceptance = rule for every duplicate-free list of device edges of ANY size. get_requires_parking = rule for all 17 qubits and every accepted gate set, and every '
+              'sequence emitted by the generator model is a permutation of the requested gates split into accepted steps of the requested size.')
+LEVEL_NOTE = ('The theorems are about the hand-written model C16/Model.v, tied to the code by an exhaustive sweep (every edge subset of size <= 3, thorough <= 4, through '
+              'get_mutually_allowed; every qubit for the parking question on accepted sets; generator runs) whose answers are judged by the rule of C16/Spec.v, which never '
+              'mentions the model. The generator clause is proved for the model of construct_allowed_gate_sequences (exact-size partitions + filter), not for itertools/tqdm. '
+              'Trusted: Coq kernel, the ast translator (tables and ordering also compared with the runtime objects). No axioms.')
+TECHNIQUE = 'Coq proof (pairwise reduction + finite pair table by vm_compute + generic list lemmas) over translator-generated tables, with an exhaustive small-subset model/implementation correspondence judged in Coq'
